@@ -325,9 +325,11 @@ func (p *Packet) Bytes() []byte {
 // ChannelInfo returns the number of channels in this packet, and the first one
 func (p *Packet) ChannelInfo() (nchan, offset int) {
 	nchan = 1
-	for _, s := range p.shape.Sizes {
-		if s > 0 {
-			nchan *= int(s)
+	if p.shape != nil {
+		for _, s := range p.shape.Sizes {
+			if s > 0 {
+				nchan *= int(s)
+			}
 		}
 	}
 	return nchan, int(p.offset)
